@@ -107,7 +107,7 @@ def eval_adverb_each_index(f, a, op, backend):
     return f(backend.kg_asarray([0, a]))
 
 
-def eval_adverb_each2(f, a, b):
+def eval_adverb_each2(f, a, b, backend):
     """
 
         a f'b                                                   [Each-2]
@@ -130,8 +130,8 @@ def eval_adverb_each2(f, a, b):
         return f(a,b)
     a = [KGChar(c) for c in a] if isinstance(a,str) else a
     b = [KGChar(c) for c in b] if isinstance(b,str) else b
-    r = bknp.asarray([f(x,y) for x,y in zip(a,b)])
-    return ''.join(r) if r.dtype == '<U1' else r
+    r = [f(x,y) for x,y in zip(a,b)]
+    return ''.join(r) if all(isinstance(u,KGChar) for u in r) else backend.kg_asarray(r)
 
 
 def eval_adverb_each_left(f, a, b, backend):
@@ -451,7 +451,7 @@ def get_adverb_fn(klong, s, arity):
     backend = klong._backend
 
     if s == "'":
-        return eval_adverb_each2 if arity == 2 else lambda f,a,op: eval_adverb_each(f,a,op,backend)
+        return (lambda f,a,b: eval_adverb_each2(f,a,b,backend)) if arity == 2 else lambda f,a,op: eval_adverb_each(f,a,op,backend)
     elif s == '/':
         return eval_adverb_over_neutral if arity == 2 else lambda f,a,op: eval_adverb_over(f,a,op,backend)
     elif s == '\\':
